@@ -256,7 +256,9 @@ class RuntimeName(Name, Object, Callable):
         if isinstance(self.value, type):
             try:
                 self._instance = RuntimeName('__none__', self.value())
-            except TypeError:
+            except Exception:
+                # the class cannot be instantiated without arguments
+                # (TypeError, RuntimeError for super(), ...)
                 pass
 
         return self._instance
